@@ -274,8 +274,10 @@ def rule_c(ck, u, eng):
         fold = 'upper'
     if not cmpseen:
         return ck.broken('C20.c', 'digit2int', cast.where(f), 'comparison with the lookup string not recognised')
-    # the search itself: index from 0, step +1, while index < BOUND, a match returns the index
+    # the search itself: index from START, step +1, while index < BOUND, a match returns the index, otherwise FALLBACK
     bound = None
+    start = 0
+    fallback = None
     shape_bad = None
     for p in ps:
         if not p.loops:
@@ -286,8 +288,13 @@ def rule_c(ck, u, eng):
             shape_bad = 'search loop carries %d variables' % len(idxs)
             continue
         k_, h, pre = idxs[0]
-        if pre != C(0):
+        if pre is None or not sym.is_c(pre):
             shape_bad = 'search starts at index %s' % (fmt(pre) if pre else '?')
+        else:
+            start = pre[1]
+        if p.end == 'return' and not any(c[0] == 'cmp' and c[1] == '==' and 'digits' in fmt(c) for c in p.cond_terms()):
+            if p.ret is not None and sym.is_c(strip(p.ret)):
+                fallback = strip(p.ret)[1]
         for c in p.cond_terms():
             if c[0] == 'cmp' and c[1] == '<' and c[2] == h and sym.is_c(c[3]):
                 bound = c[3][1] if bound is None else min(bound, c[3][1])
@@ -304,7 +311,9 @@ def rule_c(ck, u, eng):
         return ck.broken('C20.c', 'digit2int', cast.where(f), shape_bad or 'search bound not recognised')
     if bound > len(lookup) + 1:
         ck.violation('C20.c', 'digit2int:bound', cast.where(f), 'the search reads digits[%d], the lookup string has %d characters' % (bound - 1, len(lookup)))
-    lookup = lookup[:bound]
+    def digit_value(key):
+        idx = lookup.find(key)
+        return idx if start <= idx < bound else fallback
     sets = {'isdigit': '0123456789', 'isxdigit': '0123456789abcdefABCDEF'}
     f2 = None
     nsite = 0
@@ -325,12 +334,12 @@ def rule_c(ck, u, eng):
                 badch = []
                 for ch in sets[pred]:
                     key = ch.lower() if fold == 'lower' else ch.upper() if fold == 'upper' else ch
-                    idx = lookup.find(key)
-                    if idx < 0 or idx >= base:
+                    val = digit_value(key)
+                    if val is None or val != int(ch, 16) or val >= base:
                         badch.append(ch)
                 ck.verdict(not badch, 'C20.c', wrapper, cast.where(x),
-                           'every character %s accepts has a digit value below %d' % (pred, base) if not badch else
-                           'characters %s are accepted by %s but digit2int (lookup "%s", case folding: %s) gives them no value below %d: they count as 0'
+                           'every character %s accepts gets its numeric value (below %d) from digit2int' % (pred, base) if not badch else
+                           'characters %s are accepted by %s but digit2int (lookup "%s", case folding: %s) does not give them their numeric value below %d'
                            % (''.join(badch), pred, lookup, fold, base))
     ck.floor('C20.c', 'parse_integer_ call sites', nsite, 2)
 
